@@ -21,6 +21,7 @@ struct Ctx {
 };
 static Ctx *X;
 
+static bool g_big = false;  // case of the sub "bigwait": lengths up to tens of MiB are taken as written
 static InItem mk_in(const Op &op) {
   InItem it;
   auto A = [&](size_t i) -> int64_t { return i < op.a.size() ? op.a[i] : 0; };
@@ -29,7 +30,7 @@ static InItem mk_in(const Op &op) {
   static const int errs[] = {ECONNRESET, EPIPE, ETIMEDOUT, EIO, ENOTCONN, ENOMEM, ENOBUFS, ECONNREFUSED, EHOSTUNREACH};
   it.err = it.t == IN_SPUR ? (A(2) & 1 ? EWOULDBLOCK : EAGAIN) : errs[((A(2) % 9) + 9) % 9];
   it.hup = A(3) & 1;
-  if (it.t == IN_DATA) it.data = op.b.empty() ? prbytes((uint64_t)A(4), (size_t)std::min<int64_t>(std::max<int64_t>(A(5), 1), 200000)) : op.b;
+  if (it.t == IN_DATA) it.data = op.b.empty() ? prbytes((uint64_t)A(4), (size_t)std::min<int64_t>(std::max<int64_t>(A(5), 1), g_big ? (20 << 20) : 200000)) : op.b;
   return it;
 }
 static OutItem mk_out(const Op &op) {
@@ -51,6 +52,7 @@ struct Step {
   int64_t consume_abs = -1; // absolute count (clamped to visible) when >= 0
   bool in_cb = false;       // issue the next wait from inside this callback
   bool peek_twice = false;
+  bool free_in_cb = false;  // the application is done with the connection: it frees the reader from inside this wait's callback
 };
 struct Reader {
   int fd = -1;
@@ -200,6 +202,14 @@ static int rd_cb(void *, int status) {
     if (j == len) X->cls.insert("consume-all");
     // what stays visible must still be right
     rd_check_visible(0, "after consume");
+    if (r.cur->free_in_cb && !X->failed) {
+      // nothing is pending inside the callback, so the reader may be freed here ("got my complete response, done with this connection")
+      X->cls.insert(j == len ? "reader-freed-inside-success-callback(all consumed)" : "reader-freed-inside-success-callback(data left)");
+      shim_nr_free(r.R);
+      r.R = nullptr;
+      r.ended = true;
+      return 0;
+    }
     if (r.next < r.steps.size() && r.cur->in_cb && !X->failed) {
       X->cls.insert("wait-from-callback");
       rd_issue();
@@ -209,10 +219,20 @@ static int rd_cb(void *, int status) {
     if (arrived >= r.cur->k) X->fail("eof-although-satisfied", "wait reported end-of-stream although the requested bytes had arrived first");
     X->cls.insert("eof");
     r.ended = true;
+    if (r.cur->free_in_cb) {
+      X->cls.insert("reader-freed-inside-eof-callback");
+      shim_nr_free(r.R);
+      r.R = nullptr;
+    }
   } else if (status == -1) {
     if (!err) X->fail("spurious-error", "wait reported an error although the transport never failed");
     X->cls.insert("transport-error");
     r.ended = true;
+    if (r.cur->free_in_cb) {
+      X->cls.insert("reader-freed-inside-error-callback");
+      shim_nr_free(r.R);
+      r.R = nullptr;
+    }
   } else
     X->fail("bad-status", "wait callback with status " + std::to_string(status));
   return 0;
@@ -231,6 +251,9 @@ static Outcome run_reader(const Case &c) {
   size_t nin = 0;
   size_t total_before_end = 0;
   bool end_seen = false;
+  g_big = false;
+  for (auto &op : c)
+    if (op.k == "big") g_big = true;
   for (auto &op : c) {
     auto A = [&](size_t i) -> int64_t { return i < op.a.size() ? op.a[i] : 0; };
     if (op.k == "in" && nin++ < 600) {
@@ -243,12 +266,13 @@ static Outcome run_reader(const Case &c) {
       if (!end_seen || it.t == IN_EOF || it.t == IN_ERR) K().push_in(r.fd, it);
     } else if (op.k == "wait" && r.steps.size() < 80) {
       Step s;
-      s.k = (size_t)std::min<int64_t>(std::max<int64_t>(A(0), 1), 300000);
+      s.k = (size_t)std::min<int64_t>(std::max<int64_t>(A(0), 1), g_big ? (48 << 20) : 300000);
       s.cancel_at = std::min<int64_t>(std::max<int64_t>(A(1), -1), 20000000);
       s.consume_pct = (int)std::min<int64_t>(std::max<int64_t>(A(2), 0), 100);
       s.consume_abs = A(3);
       s.in_cb = A(4) & 1;
       s.peek_twice = A(4) & 2;
+      s.free_in_cb = A(4) & 4;
       r.steps.push_back(s);
     } else if (op.k == "eintr")
       K().poll_eintr.push_back(1);
@@ -286,7 +310,7 @@ static Outcome run_reader(const Case &c) {
   }
   if (turns >= 40000) x.fail("livelock", "reader script did not finish within 40000 turns");
   if (r.timer) shim_timer_cancel(r.timer);
-  if (r.waiting) shim_nr_cancel(r.R);
+  if (r.waiting && r.R) shim_nr_cancel(r.R);
   if (r.R) shim_nr_free(r.R);
   int ncls = 0;
   for (auto &s : x.cls) {
@@ -315,7 +339,7 @@ static rc::Gen<Case> gen_reader(int tier) {
       int64_t cancel = *rc::gen::weightedOneOf<int64_t>({{8, rc::gen::just<int64_t>(-1)}, {1, rc::gen::just<int64_t>(0)}, {3, rc::gen::elementOf(std::vector<int64_t>{1, 500, 1000, 1500, 3000, 10000, 100000})}});
       int pct = *rc::gen::weightedElement<int>({{3, 100}, {2, 0}, {3, 50}, {1, 10}, {1, 99}});
       int64_t abs = *rc::gen::weightedOneOf<int64_t>({{3, rc::gen::just<int64_t>(-1)}, {1, rc::gen::just(k)}, {1, range<int64_t>(0, k)}});
-      c.push_back(Op("wait", {k, cancel, pct, abs, *range<int>(0, 3)}));
+      c.push_back(Op("wait", {k, cancel, pct, abs, *range<int>(0, 3) | (*range<int>(0, 19) == 0 ? 4 : 0)}));
       want += k;
     }
     int nitems = *range<int>(0, 20);
@@ -334,6 +358,32 @@ static rc::Gen<Case> gen_reader(int tier) {
     if (*range<int>(0, 5) == 0) c.push_back(Op("eintr"));
     return c;
   });
+}
+
+// one wait for about 32 MiB (both sides of 2^25), after an optional small wait that leaves the buffer at an odd offset
+static rc::Gen<Case> gen_bigwait(int) {
+  return rc::gen::noShrink(rc::gen::exec([]() {
+    Case c;
+    c.push_back(Op("big"));
+    int64_t want = 0;
+    if (*range<int>(0, 1)) {
+      int64_t k0 = *range<int64_t>(1, 5000);
+      c.push_back(Op("wait", {k0, -1, *rc::gen::elementOf(std::vector<int>{0, 50, 100}), -1, 0}));
+      want += k0;
+    }
+    int64_t k = ((int64_t)1 << 25) + *rc::gen::weightedOneOf<int64_t>({{1, range<int64_t>(-2, 2)}, {2, range<int64_t>(1, 1 << 20)}, {1, range<int64_t>(1, 12 << 20)}});
+    c.push_back(Op("wait", {k, -1, 100, -1, *range<int>(0, 3)}));
+    want += k;
+    c.push_back(Op("wait", {*range<int64_t>(1, 100), -1, 100, -1, 0}));
+    int64_t produced = 0;
+    while (produced < want + 200) {
+      int64_t len = *rc::gen::weightedOneOf<int64_t>({{1, range<int64_t>(1, 5000)}, {3, range<int64_t>(1 << 20, 16 << 20)}});
+      c.push_back(Op("in", {IN_DATA, *rc::gen::elementOf(std::vector<int64_t>{0, 0, 1000}), 0, 0, *rc::gen::arbitrary<int>(), len}));
+      produced += len;
+    }
+    c.push_back(Op("in", {IN_EOF, 0, 0, 0, 0, 0}));
+    return c;
+  }));
 }
 
 // ------------------------------------------------------------------ writer
@@ -592,5 +642,10 @@ int main(int argc, char **argv) {
   w.timeout_s = 10;
   subs.push_back(r);
   subs.push_back(w);
+  Sub bw{"bigwait", "the reader sub's oracle on ONE wait for 2^25 - 2 .. 2^25 + 12 MiB bytes (optionally after a small wait), the peer sending segments of up to 16 MiB. Always non-trivial",
+         gen_bigwait, run_reader};
+  bw.fork = true;
+  bw.timeout_s = 300;
+  subs.push_back(bw);
   return pbt_main(argc, argv, subs);
 }
